@@ -544,6 +544,7 @@ func runC03(cases string, res *Result) {
 	c03SpellingsOfOneWord(res)
 	c03RenderedAgainUnderSettings(res)
 	c03OtherContextsFirst(res)
+	c10ParentsNamedRelatively(cases, res)
 	for _, cl := range []string{"hash-duplicate-key", "key-string-collision", "toplevel-address", "merge-filter-key-collision"} {
 		bad := 0
 		for _, f := range res.Findings {
